@@ -251,16 +251,28 @@ impl Re {
             Re::Dot => ".".into(),
             Re::Class { .. } => self.written(),
             Re::Cat(v) => v.iter().map(|r| r.reference_atom_in_cat(flags)).collect(),
-            Re::Alt(v) => format!("(?:{})", v.iter().map(|r| r.reference(flags)).collect::<Vec<_>>().join("|")),
+            // (groups are written exactly as in the `.l` text - capturing parentheses - because the
+            // regex crate does not treat `(..)` and `(?:..)` alike in every case: for
+            // `x+x+|x+a.+1` on "xxxxa..1" it prefers the second branch, with a capturing group
+            // around the first branch the first; see DESIGN.md, false alarm 19)
+            Re::Alt(v) => format!("({})", v.iter().map(|r| r.reference(flags)).collect::<Vec<_>>().join("|")),
             Re::Star(r) => format!("{}*", r.reference_atom(flags)),
             Re::Plus(r) => format!("{}+", r.reference_atom(flags)),
             Re::Opt(r) => format!("{}?", r.reference_atom(flags)),
             Re::Rep(r, a, b) => format!("{}{{{},{}}}", r.reference_atom(flags), a, b),
         }
     }
+    /// The pattern for a whole rule: a top-level alternation that the file writes without
+    /// parentheses is left without a group here as well.
+    pub fn reference_top(&self, flags: &AlFlags, bare: bool) -> String {
+        match self {
+            Re::Alt(v) if bare => v.iter().map(|r| r.reference(flags)).collect::<Vec<_>>().join("|"),
+            _ => self.reference(flags),
+        }
+    }
     fn reference_atom(&self, flags: &AlFlags) -> String {
         match self {
-            Re::Cat(_) => format!("(?:{})", self.reference(flags)),
+            Re::Cat(_) => format!("({})", self.reference(flags)),
             _ => self.reference(flags),
         }
     }
